@@ -1529,7 +1529,7 @@ def _subclasses_impl(ctx: CallContext) -> Value:
     """Overridden because typeshed types make it (T) => List[T] instead."""
     self_obj = ctx.vars["self"]
     if isinstance(self_obj, KnownValue) and isinstance(self_obj.val, type):
-        return KnownValue(self_obj.val.__subclasses__())
+        return KnownValue(type.__subclasses__(self_obj.val))
     return GenericValue(list, [TypedValue(type)])
 
 
